@@ -373,6 +373,96 @@ Definition en_hash (a b m : Z) : enum := fun k s =>
   sort_by (fun x y => ((pid x + 1) * a + k * b) mod m <? ((pid y + 1) * a + k * b) mod m) (iter s).
 End FO.
 
+(* ------------------------------------------------------------------ stage 3 on circular records, with explicit enumerators *)
+(* cluster_prediction.py : find_protoclusters on ANY record (circular ones with origin-crossing genes included), rules
+   with extenders and superiors: C03.Model's transcription of the pipeline again, with the ONE place where the code iterates
+   a Python set made explicit:
+       for cluster_type, cds_names in cds_by_cluster_type.items():            (dict: insertion order, fixed)
+           cds_features = sorted(record.get_cds_by_name(cds) for cds in cds_names)        <- cds_names : Set[str]
+           cross_origin = (feature for feature in cds_features if location_bridges_origin(feature.location))
+           cds_features = sorted([feature for feature in cds_features if not location_bridges_origin(feature.location)])
+   `en ri s` = the order in which the interpreter yields the names of the genes satisfying rule ri (given as the list s of
+   those genes in record order).  The origin-crossing genes become the FIRST cores in the order of the first sorted();
+   the sweep compares every later gene with the newest core only and the closing test looks at the first and the last core
+   only, so that order is observable.  apply_extenders, remove_redundant_protoclusters and merge_over_origin iterate lists
+   only (C03.Model.extend_proto / remove_redundant / merge_over_origin_protos, used as they are); apply_cluster_rules builds
+   the sets by add/update and iterates dicts and lists only (C03.Model.apply_cluster_rules).
+   At the identity enumerator this is C03.Model.pipeline (lemma detection_o_id_proof), which is what the correspondence run of
+   C03 and fn 16 of this check tie to the code. *)
+Module DO.
+Import ASV.Common.Loc C03.Model.
+Definition enum := Z -> list gene -> list gene.
+Definition gene_lt (a b : gene) : bool := klt (snd a) (snd b).
+(* the cores of one rule from the genes of the rule in enumeration order `o`; `presort` = false is the function WITHOUT the
+   first sorted() (the origin-crossing genes taken in enumeration order): not the code, kept for the theorem that the
+   first sort is needed *)
+Definition rule_cores_gen (presort : bool) (N : Z) (circular : bool) (r : rule) (o : list gene) : res (list loc) :=
+  let w := wrap_of N circular in
+  let feats := if presort then sort_by gene_lt o else o in
+  let cross := filter (fun g : gene => bridges (snd g)) feats in
+  let plain := sort_by gene_lt (filter (fun g : gene => negb (bridges (snd g))) feats) in
+  do cross_cores <- mapM (fun g : gene => do c <- connect_locations (map (fun p => [p]) (snd g)) w; mk_feature c) cross;
+  do cores_rev <- fold_left (sweep_step N circular (r_cut r)) (map snd plain) (Ok (rev cross_cores));
+  let cores := rev cores_rev in
+  match cores, cores_rev with
+  | [], _ => Err E_Assert
+  | first :: _, last :: before_rev =>
+    if circular && (1 <? zlen cores) && (lstart last <? match first with p0 :: _ => ps p0 | [] => 0 end) then
+      if dist first last w <? r_cut r then
+        do c <- connect_locations [last; first] w;
+        Ok (c :: tl (rev before_rev))
+      else Ok cores
+    else Ok cores
+  | _, _ => Ok cores
+  end.
+Definition rule_cores_o := rule_cores_gen true.
+Definition anchoring (gs : list gene) (ids : list Z) : list gene :=
+  filter (fun g : gene => existsb (Z.eqb (fst g)) ids) gs.
+Definition initial_protos_gen (presort : bool) (en : enum) (N : Z) (circular : bool) (gs : list gene) (rules : list rule)
+    (a : anchors) : res (list proto) :=
+  do per <- mapM (fun e : Z * list Z =>
+                    let r := nth_rule rules (fst e) in
+                    do cores <- rule_cores_gen presort N circular r (en (fst e) (anchoring gs (snd e)));
+                    mapM (fun core => do sur <- extend_area core (r_nb r) N circular true;
+                                      do _ <- mk_proto core sur; Ok (fst e, core, sur)) cores) a;
+  Ok (concat per).
+Definition find_protoclusters_gen (presort : bool) (en : enum) (N : Z) (circular : bool) (gs : list gene) (hs : hits)
+    (rules : list rule) (a : anchors) : res (list proto) :=
+  do cl <- initial_protos_gen presort en N circular gs rules a;
+  do cl <- mapM (extend_proto N circular gs hs rules) cl;
+  do cl <- remove_redundant gs rules cl;
+  merge_over_origin_protos N circular rules key_ext_start cl.
+Definition pipeline_gen (presort : bool) (en : enum) (N : Z) (circular : bool) (gs : list gene) (hs : hits)
+    (rules : list rule) (cached : bool) : res (list proto) :=
+  match gs with
+  | [] => Ok []
+  | _ =>
+    do _ <- mapM (fun g : gene => fkey (snd g)) gs;
+    match hs with
+    | [] => Ok []
+    | _ => do a <- apply_cluster_rules N circular gs hs rules cached; find_protoclusters_gen presort en N circular gs hs rules a
+    end
+  end.
+Definition find_protoclusters_o := find_protoclusters_gen true.
+Definition pipeline_o := pipeline_gen true.
+(* enumerators: the identity (record order, the one C03.Model uses), the reverse, and the one a child process observed:
+   obs = [(rule index, ids of the genes in the order list(the set) gave)] *)
+Definition en_id : enum := fun _ s => s.
+Definition en_rev : enum := fun _ s => rev s.
+Definition en_obs (obs : list (Z * list Z)) : enum := fun ri s =>
+  match lookup ri obs with
+  | Some ids => flat_map (fun i => filter (fun g : gene => fst g =? i) s) ids
+  | None => s
+  end.
+(* guard of the order-independence theorem: two genes of the enumerated set that Feature.__lt__ does not separate have the
+   same location *)
+Fixpoint no_key_ties (l : list loc) : bool :=
+  match l with
+  | [] => true
+  | a :: t => forallb (fun b => klt a b || klt b a || loc_eqb a b) t && no_key_ties t
+  end.
+End DO.
+
 (* ------------------------------------------------------------------ encoding *)
 Definition dStr : dec (list Z) := dList dZ.
 Definition eStrs (l : list (list Z)) : list Z := eList (eList (fun c => [c])) l.
@@ -421,6 +511,26 @@ Definition run_C17 (fn : Z) (l : list Z) : list Z :=
       | _ => bad_input
       end
     | _ => bad_input
+    end
+  | 16 => (* [(rule index, observed enumeration of the ids of its anchoring genes)] followed by the payload of C03 fn 2:
+             the detection pipeline at the observed enumeration; 17: the same at the reversed record order; 18: at record order *)
+    match dList (dPair dZ (dList dZ)) l with
+    | Some (obs, l') =>
+      match C03.Model.dInput l' with
+      | Some (N, circ, gs, hs, rules) => C03.Model.eProtos (DO.pipeline_o (DO.en_obs obs) N circ gs hs rules true)
+      | None => bad_input
+      end
+    | None => bad_input
+    end
+  | 17 =>
+    match C03.Model.dInput l with
+    | Some (N, circ, gs, hs, rules) => C03.Model.eProtos (DO.pipeline_o DO.en_rev N circ gs hs rules true)
+    | None => bad_input
+    end
+  | 18 => (* the same at the identity enumeration (record order) = C03.Model.pipeline *)
+    match C03.Model.dInput l with
+    | Some (N, circ, gs, hs, rules) => C03.Model.eProtos (DO.pipeline_o DO.en_id N circ gs hs rules true)
+    | None => bad_input
     end
   | 5 => match dPair (dPair dBool dZ) (dList dU) l with
          | Some ((crossing, N, o), []) => eUIds (unique_protoclusters crossing N o)
